@@ -30,6 +30,19 @@ type RunConfig struct {
 	StartTime    time.Time // if set, overrides the upload start time
 }
 
+// startTime returns the upload start time: the configured one, or the current
+// time if none is set. It is always in UTC: the upload logic derives calendar
+// dates ("today", the 21-day age limit) from it and compares them with the
+// dates recorded in counter files and report names, which are UTC dates. With
+// a start time in another zone an uploadable report could be held back for a
+// day, or a report dated in the (UTC) future could be sent.
+func (rcfg RunConfig) startTime() time.Time {
+	if rcfg.StartTime.IsZero() {
+		return time.Now().UTC()
+	}
+	return rcfg.StartTime.UTC()
+}
+
 // Run generates and uploads reports, as allowed by the mode file.
 func Run(config RunConfig) error {
 	defer func() {
@@ -132,11 +145,7 @@ func newUploader(rcfg RunConfig) (*uploader, error) {
 		configVersion = "v0.0.0-0"
 	}
 
-	// Set the start time, if it is not provided.
-	startTime := time.Now().UTC()
-	if !rcfg.StartTime.IsZero() {
-		startTime = rcfg.StartTime
-	}
+	startTime := rcfg.startTime()
 
 	return &uploader{
 		config:          config,
